@@ -7,7 +7,8 @@
 From Coq Require Import List String ZArith.
 Import ListNotations.
 From Anthem Require Import Syntax.Fol Syntax.Asp Sem.Domain Sem.Sat Model.Break Model.Problem Model.Strong
-  Model.Outline Model.External Proofs.BreakOk Proofs.DecomposeOk Proofs.StrongOk Proofs.ExternalOk.
+  Model.Outline Model.External Model.StrongFull Proofs.BreakOk Proofs.DecomposeOk Proofs.StrongOk Proofs.ExternalOk
+  Proofs.StrongFullOk.
 Open Scope string_scope.
 
 (* equivalence breaking: a formula and the formulas it is split into are satisfied by the same
@@ -77,6 +78,23 @@ Theorem C19_strong_modulo_simplify :
         refutes_some FI M (strong_decompose tau_star mu simp_ht simp_classic t').
 Proof. exact C19_strong_modulo_simplify_proof. Qed.
 Print Assumptions C19_strong_modulo_simplify.
+
+(* C19 for strong tasks with the REAL components (end-to-end model Model/StrongFull.v): the
+   hypotheses of C19_strong_modulo_simplify are discharged (Proofs/StrongFullOk.v: C07 for both
+   fixpoint simplifications incl. "predicates not enlarged", C01 / C08 for the vocabulary of
+   tau-star / mu).  Two tasks with the same programs, representation and direction and ANY values of
+   the simplify, eq-break and decomposition flags - in particular all 8 combinations - whose
+   problem lists the model computes ([SOk]: no overflow panic F11, the post-gamma fixpoint loop
+   stopped within the model's fuel) are refuted by exactly the same interpretations. *)
+Theorem C19_strong :
+  forall (t t' : strong_task) (pbs pbs' : list problem),
+    st_left t = st_left t' /\ st_right t = st_right t' /\
+    st_direction t = st_direction t' /\ st_repr t = st_repr t' ->
+    strong_decompose_full t = SOk pbs -> strong_decompose_full t' = SOk pbs' ->
+    no_symbol_pred_clash_full t -> no_symbol_pred_clash_full t' ->
+    forall (FI : fint) (M : pint), refutes_some FI M pbs <-> refutes_some FI M pbs'.
+Proof. exact C19_strong_proof. Qed.
+Print Assumptions C19_strong.
 
 (* external-equivalence tasks, eq-break and decomposition flags (the simplify flag changes the
    component output handed to the assembly; see C19_external_modulo_simplify below): two validated
